@@ -38,7 +38,7 @@ class Counting:
 
     def __call__(self, *a, **kw):
         g = self.fn(*a, **kw)
-        self.games.append(g)
+        self.games.append(g.copy())        # a snapshot: the generator may hand out one object that it refills in place
         return g
 
 
@@ -319,9 +319,18 @@ def make_plan(rng, n, kind, nact):
     return plan
 
 
-def build_exact_env(n, games_f, comp, r, gapname, budget, linear):
+def build_exact_env(n, games_f, comp, r, gapname, budget, linear, inplace=False):
     src = itertools.cycle([full_game(n, v) for v in games_f])
-    counting = Counting(lambda: next(src).copy())
+    if inplace:
+        # a generator that owns ONE game object and refills it for every episode (seed C15-f: "the same object" is not "the same game")
+        box = IncompleteCooperativeGame(n)
+
+        def refill():
+            box.set_values(np.array(next(src).get_values(), dtype=np.float64))
+            return box
+        counting = Counting(refill)
+    else:
+        counting = Counting(lambda: next(src).copy())
     ig = IncompleteCooperativeGame(n, computer(comp, r))
     env = ICG_Gym(ig, counting, minimal_game_coalitions(ig), GAP_FUNCTIONS[gapname], done_after_n_actions=budget)
     return env, counting, (ICG_Gym_Linear(env) if linear else None)
@@ -386,7 +395,7 @@ def main():
     for n in [int(x) for x in a.ns.split(",")]:
         traces = []
         nact = 2 ** n - n - 2
-        prev_games, prev_cls = None, None
+        prev_games, prev_cls, prev_gap, prev_comp = None, None, None, None
         for i in range(a.count):
             tid += 1
             # exact source: gap cycles with the trace index; family source: every (family, gap) pair is visited
@@ -417,13 +426,16 @@ def main():
                 # interpreter (seeds C09-f, C12-a: process-wide memos keyed by part of what the result depends on)
                 if i % 2 == 1 and prev_games is not None and (prev_cls == "SAM" or comp != "sam"):
                     games_f, cls = prev_games, prev_cls
-                prev_games, prev_cls = games_f, cls
+                    gapname = prev_gap                       # the same gap function object, too
+                    if prev_comp == "sam" and "superadditive_cached" in classes:
+                        comp, r = "sac", 0                   # another KIND of computer on the same games: its bounds differ
+                prev_games, prev_cls, prev_gap, prev_comp = games_f, cls, gapname, comp
                 mode = "exact"
                 scale = 1
                 while any(x * scale != round(x * scale) for g in games_f for x in g):
                     scale *= 2
                 grid = None
-                env, counting, lin = build_exact_env(n, games_f, comp, r, gapname, budget, linear)
+                env, counting, lin = build_exact_env(n, games_f, comp, r, gapname, budget, linear, inplace=(i % 4 == 2))
                 tol, tol2 = 0, 0
             else:
                 family = fams[i % len(fams)]
